@@ -31,6 +31,8 @@ def run(res, replay=None):
     cfgs = configs_for(res.tier)
     res.extra["configurations"] = ["%s -std=%s" % (c[0], c[1]) for c in cfgs]
     cases = prepare_many(res.seed, nschemas, cfgs)
+    # fixed edge schemas: constant-only / member-less levels, narrow-count dimensions, nested composites with offsets
+    cases.append(prepare_fixed(edge_schema(), cfgs))
     dist = {}
     for ci, mc in enumerate(cases):
         for k, v in mc.stats.items():
